@@ -720,6 +720,45 @@ func (c *Ctx) checkExprKeys(r *Report) {
 		})
 	}
 	r.Floor("map stores in the walker", n, 5)
+	// "later assignments to the same key win": the type name is the first thing written for a block, so an
+	// explicit `type = …` field of the same block (textually later) overrides it
+	for _, f := range c.Funcs {
+		if f.Pkg != c.ExprS || f.Name() != "parseExpr" {
+			continue
+		}
+		var typeStore ssa.Instruction
+		var inner []ssa.Instruction
+		eachInstr(f, func(in ssa.Instruction) {
+			if mu, ok := in.(*ssa.MapUpdate); ok {
+				vp := c.prov(mu.Value, &Frame{Fn: f}).String()
+				if strings.Contains(vp, "IDENT") {
+					typeStore = in
+				}
+			}
+			if call, ok := in.(*ssa.Call); ok {
+				if s := call.Common().StaticCallee(); s != nil && s.Name() == "parseInnerExpr" {
+					inner = append(inner, in)
+				}
+			}
+		})
+		key := "C17.keys:" + fname(f) + "#type-first"
+		switch {
+		case typeStore == nil || len(inner) == 0:
+			r.Undecided(key, c.pos(f.Pos()), "type store or field loop not found")
+		default:
+			ok := true
+			for _, in := range inner {
+				if !instrDominates(typeStore, in) {
+					ok = false
+				}
+			}
+			if ok {
+				r.OK(key, "the type name is stored before the block's fields are walked (a later `type = …` field wins)")
+			} else {
+				r.Fail(key, c.instrPos(typeStore), "the type name is stored after the block's fields: it overwrites an explicit `type = …` assignment of the same block, so the later assignment does not win")
+			}
+		}
+	}
 	// nested expressions recurse with the field key
 	for _, f := range c.Funcs {
 		if f.Pkg != c.ExprS || f.Name() != "parseInnerExpr" {
